@@ -129,7 +129,7 @@ _Static_assert(CommImplType__SEND == 0, "CommImplType layout");
 
 void MailboxImpl__push(struct MailboxImpl* self, struct CommImpl* comm)
     __CPROVER_requires(self == &g_mb && WF_MB && IS_COMM(comm) && NOT_IN_Q(comm) && vf_exc == 0)
-    __CPROVER_assigns(comm->mbox_, comm->mbox_id_, g_mb.comm_queue_.n, __CPROVER_object_whole(g_qd))
+    __CPROVER_assigns(VF_PT(comm->mbox_) /* pointer target: HOWTO, dfcc pointer havoc */, comm->mbox_id_, g_mb.comm_queue_.n, __CPROVER_object_whole(g_qd))
     __CPROVER_ensures(vf_exc == 0 && Qn == oldQn + 1 && g_qd[oldQn] == comm && comm->mbox_ == &g_mb)
     /*@ push_appends_at_tail */
     __CPROVER_ensures(!(gk < oldQn) || g_qd[gk] == OLDQ(gk)) /*@ push_keeps_the_others_in_place */;
@@ -137,7 +137,7 @@ void MailboxImpl__push(struct MailboxImpl* self, struct CommImpl* comm)
 #define IN_OLDQ_AT(k) ((k) < oldQn && OLDQ(k) == comm)
 void MailboxImpl__remove(struct MailboxImpl* self, struct CommImpl* comm)
     __CPROVER_requires(self == &g_mb && WF_MB && IS_COMM(comm) && vf_exc == 0)
-    __CPROVER_assigns(vf_exc, comm->mbox_, g_mb.comm_queue_.n, __CPROVER_object_whole(g_qd))
+    __CPROVER_assigns(vf_exc, VF_PT(comm->mbox_), g_mb.comm_queue_.n, __CPROVER_object_whole(g_qd))
     __CPROVER_ensures((vf_exc == VF_EXC_ABORT) == (__CPROVER_old(comm->mbox_) != &g_mb || !ANYQ(IN_OLDQ_AT)))
     /*@ remove_rejects_a_comm_that_is_not_queued_here */
     __CPROVER_ensures(vf_exc == 0 || vf_exc == VF_EXC_ABORT)
